@@ -88,6 +88,7 @@ def exec (line : String) : String :=
           | "batch_concat", xs, [] => showR (ShapeOps.batchConcat xs)
           | "split", [x], [d, n] => showR (ShapeOps.split x d n)
           | "batch_split", [x], [n] => showR (ShapeOps.batchSplit x n)
+          | "sce", [x, t], [d] => showR (ShapeOps.softmaxCrossEntropy x t d)
           | _, _, _ => "bad-op"
 
 def step (_ : Unit) (line : String) : Unit × String := ((), exec line)
